@@ -150,6 +150,8 @@ def parse_operand(s):
         return ("move", parse_place(s[5:]))
     if s.startswith("const "):
         return ("const", s[6:].strip())
+    if re.match(r"^[A-Za-z_][\w:<>, ]*$", s) and not s.startswith("_"):
+        return ("fnitem", s)                      # a bare function item passed as an argument
     raise ValueError("operand: %r" % s)
 
 
